@@ -57,13 +57,42 @@ def limit_mem(gb):
     return f
 
 
+_CHILDREN = set()
+
+
+def _kill_children(*_a):
+    for pid in list(_CHILDREN):
+        try:
+            os.killpg(pid, signal.SIGKILL)
+        except (ProcessLookupError, PermissionError):
+            pass
+    if _a:
+        sys.exit(130)
+
+
+import atexit
+atexit.register(_kill_children)
+for _sig in (signal.SIGTERM, signal.SIGINT, signal.SIGHUP):
+    try:
+        signal.signal(_sig, _kill_children)
+    except ValueError:
+        pass
+
+
 def run(cmd, cwd=None, timeout=None, mem_gb=None, env=None):
     """returns (rc, stdout+stderr, seconds, timed_out)"""
     t0 = time.time()
     p = subprocess.Popen(cmd, cwd=cwd, stdout=subprocess.PIPE, stderr=subprocess.STDOUT, text=True,
                          env=env or ENV, preexec_fn=limit_mem(mem_gb))
+    _CHILDREN.add(p.pid)
     try:
         out, _ = p.communicate(timeout=timeout)
+        _CHILDREN.discard(p.pid)
+        # make sure nothing of the process group survives (cargo-kani leaves cbmc behind when killed)
+        try:
+            os.killpg(p.pid, signal.SIGKILL)
+        except (ProcessLookupError, PermissionError):
+            pass
         return p.returncode, out, time.time() - t0, False
     except subprocess.TimeoutExpired:
         try:
